@@ -176,6 +176,20 @@ CLAIMED["C15"] = (
     "templates and every row of the shared pipeline recording (no ':n' in reaction / input_reaction) are included.",
     "5/C15", "")
 
+CLAIMED["C14"] = (
+    "TLA+ models of the composition-only decision logic (Composition.tla) and of the placeholder string surgery at "
+    "token level (Constrain.tla) checked exhaustively by TLC; families of equivalent spellings run through the real "
+    "pipeline and validated by TLC (Spelling_Trace.tla)",
+    "TLC shows that verdict / difference formula are functions of the compositions and that the substring surgery of "
+    "RuleConstraint equals whole-token surgery and is independent of the order of the input molecules as long as no "
+    "input molecule's text begins with a marker (with such inputs allowed it must fail - the C02 finding). For corpus "
+    "and hand-picked reactions (incl. repeated spectator molecules with unequal multiplicities) six to ten equivalent "
+    "spellings (canonical, molecules permuted, random atom order, kekulised, atom maps added) are run shuffled in one "
+    "batch; TLC first confirms from oracle identities that every variant is the same reaction, then requires every "
+    "member to have the verdict and the multiset of added molecules (oracle identity) of the first member whose outcome "
+    "is input-balanced or rule-based; families completed with a redox reagent template are compared on the verdict only.",
+    "5/C14", "")
+
 PENDING_REASON = "check not built yet in this round (planned, see DESIGN.md section 5); not claimed until it passes on the unchanged tree"
 
 
